@@ -270,13 +270,6 @@ func shapeOf(fd *ast.FuncDecl) ([]string, error) {
 	return toks, errOut
 }
 
-func leanStrList(xs []string) string {
-	var p []string
-	for _, x := range xs {
-		p = append(p, leanStr(x))
-	}
-	return "[" + strings.Join(p, ", ") + "]"
-}
 
 func leanBytesList(xs []string) string {
 	var p []string
